@@ -250,7 +250,7 @@ def replay(behaviours, rng: random.Random):
                     continue
                 pkt, min_ = packet_for(ev, counter)
                 # every step arrives through another input format (the same one for the decoder and its twin)
-                fmt = rng.choice(FORMATS[:5] if k == "frame" else FORMATS)
+                fmt = ev.get("fmt") or rng.choice(FORMATS[:5] if k == "frame" else FORMATS)
                 evs.append({"in": uniform(min_), "window": window, "who": "FU", "fmt": fmt,
                             "obsF": observe(F, lambda d: deliver(d, pkt, fmt)), "obsU": observe(U, lambda d: deliver(d, pkt, fmt))})
             traces.append({"cfg": cfg, "evs": evs, "entries": [str(e) for e in entries]})
